@@ -99,9 +99,17 @@ type Lockset struct {
 	Calls     int
 	LockPairs []string // problems found with lock pairing (C09.R3)
 	LockOps   int      // lock acquisitions visited on call paths from the roots
+	Order     []LockEdge // acquisition order: a lock acquired while another one is held
 	Reacquire []Access // a lock operation on a mutex that is already held on every path to it (self-deadlock)
 	CallSites []Access // every call executed on behalf of a root, with the lockset held at the call (Path = receiver / first argument)
 	Budget    bool     // analysis budget exhausted (result incomplete => undecided)
+}
+
+// LockEdge: lock Acq was acquired (mode AcqMode) while Held was held (mode HeldMode).
+type LockEdge struct {
+	Held, Acq         string
+	HeldMode, AcqMode byte
+	At                Access
 }
 
 type lsState struct {
@@ -840,6 +848,18 @@ func (a *lsAnalysis) recordInstr(f *lsFrame, st *lsState, ins ssa.Instruction) {
 			lp := f.pathOf(cc.Args[0])
 			if op == "lock" || op == "rlock" {
 				a.out.LockOps++
+				if lp != "" && lp != freshPath {
+					am := byte('W')
+					if op == "rlock" {
+						am = 'R'
+					}
+					for h, hm := range st.L {
+						if h != lp {
+							a.out.Order = append(a.out.Order, LockEdge{Held: h, Acq: lp, HeldMode: hm, AcqMode: am,
+								At: Access{Path: lp, Locks: st.L.clone(), Root: a.root, Fn: f.fn, Instr: ins, What: op}})
+						}
+					}
+				}
 			}
 			if held, is := st.L[lp]; is && lp != "" && lp != freshPath {
 				// sync.Mutex / RWMutex are not re-entrant: Lock with the lock held in any mode and
